@@ -18,8 +18,9 @@ META = {
     "text": "All chains of depth 1-2 over blocks {a,b} with every per-block kind (absent, text, super(), super.super(), "
     "self.other(), nested other block, scoped / unscoped block inside a for loop, required in the root) and every "
     "extends form (literal, variable, Template object, conditional expression, extends inside if, double extends, two "
-    "conditional extends) with every flag assignment, plus depth 3 with one block (thorough: depth 3 with two blocks, "
-    "depth 4 with one block, three blocks at depth <= 2). Marker text before/between/after blocks and on both sides of "
+    "conditional extends) with every flag assignment, plus depth 3 with one block, plus self.<block>() calls from the "
+    "root layout on literal chains (thorough: additionally depth 3 with two blocks - all kinds on literal chains, a "
+    "reduced kind set under all extends forms -, depth 4 with one block, three blocks at depth <= 2). Marker text before/between/after blocks and on both sides of "
     "the extends tag makes every misplaced or unsuppressed output visible. The whole rendered string or the exception "
     "class (TemplateRuntimeError / UndefinedError) must equal the resolver's answer.",
     "note": "Bounded: depth <= 3 (4), block names <= 2 (3), one definition shape per block and template, loop of two "
